@@ -151,11 +151,14 @@ CHECKS = {
   "category": "proof",
   "text": "Proved: a link of N samples yields ceil(N/2) under half-rate (Blocking.v, all block sizes divisible by 8, all window sequences); positions advance "
           "by two per sample; switching on is refused with the state untouched when a link has 64-sample blocks; totals unchanged; link tables are never modified by any op; for ANY page table a successful half-rate sample seek lands less than "
-          "one output sample (two positions) below the target, and its loops terminate. "
+          "one output sample (two positions) below the target, and its loops terminate; SeekH_lemmas.v redoes the C07 development with the half-rate flag set: linear "
+          "reading of intact packets delivers half the block step per packet and advances the position by two per sample (SyncInvH), and ov_pcm_seek on an intact run "
+          "reports a position at or below the target, less than two below it, and truthful (executable hypotheses seek_hyps_h, evaluated per run for every half-rate "
+          "sample seek). "
           "Per run: ov_halfrate toggled at random points of seek/read histories, every op compared with VFile.v and every read bit for bit with a packet-level decode "
           "that had the setting from the start; final linear read counts ceil(N/2) per link.",
   "note": VF_NOTE + " Streams whose beginning is trimmed by an odd count (all positions on the odd grid) are excluded from this check.",
-  "technique": "Coq proof (count by induction over blocks; model invariants) + correspondence of toggling histories vs lib/vorbisfile.c",
+  "technique": "Coq proof (count by induction over blocks; half-rate synchronisation and seek invariants) + correspondence of toggling histories vs lib/vorbisfile.c",
  },
  "C07": {
   "category": "proof",
